@@ -856,6 +856,7 @@ extern "C"
 {
 int eventfd(unsigned init, int flags)
 {
+  simint::TsanIgn _tsan_ign;
   SIM_REAL(int, eventfd, unsigned, int);
   if (!on()) return real(init, flags);
   point(0x800);
@@ -868,6 +869,7 @@ int eventfd(unsigned init, int flags)
 }
 int timerfd_create(int clk, int flags)
 {
+  simint::TsanIgn _tsan_ign;
   SIM_REAL(int, timerfd_create, int, int);
   if (!on()) return real(clk, flags);
   point(0x801);
@@ -879,6 +881,7 @@ int timerfd_create(int clk, int flags)
 }
 int timerfd_settime(int fd, int flags, const itimerspec* n, itimerspec* o)
 {
+  simint::TsanIgn _tsan_ign;
   SIM_REAL(int, timerfd_settime, int, int, const itimerspec*, itimerspec*);
   if (!isfd(fd)) return real(fd, flags, n, o);
   point(0x802);
@@ -911,6 +914,7 @@ int timerfd_settime(int fd, int flags, const itimerspec* n, itimerspec* o)
 }
 int timerfd_gettime(int fd, itimerspec* o)
 {
+  simint::TsanIgn _tsan_ign;
   SIM_REAL(int, timerfd_gettime, int, itimerspec*);
   if (!isfd(fd)) return real(fd, o);
   Fd* f = F(fd);
@@ -923,6 +927,7 @@ int timerfd_gettime(int fd, itimerspec* o)
 }
 int epoll_create1(int flags)
 {
+  simint::TsanIgn _tsan_ign;
   SIM_REAL(int, epoll_create1, int);
   if (!on()) return real(flags);
   point(0x810);
@@ -930,6 +935,7 @@ int epoll_create1(int flags)
 }
 int epoll_create(int sz)
 {
+  simint::TsanIgn _tsan_ign;
   SIM_REAL(int, epoll_create, int);
   if (!on()) return real(sz);
   point(0x810);
@@ -937,6 +943,7 @@ int epoll_create(int sz)
 }
 int epoll_ctl(int ep, int op, int fd, epoll_event* ev)
 {
+  simint::TsanIgn _tsan_ign;
   SIM_REAL(int, epoll_ctl, int, int, int, epoll_event*);
   if (!isfd(ep)) return real(ep, op, fd, ev);
   point(0x811);
@@ -980,6 +987,7 @@ int epoll_ctl(int ep, int op, int fd, epoll_event* ev)
 }
 int epoll_wait(int ep, epoll_event* out, int maxev, int timeout)
 {
+  simint::TsanIgn _tsan_ign;
   SIM_REAL(int, epoll_wait, int, epoll_event*, int, int);
   if (!isfd(ep)) return real(ep, out, maxev, timeout);
   point(0x812);
@@ -1042,6 +1050,7 @@ int epoll_wait(int ep, epoll_event* out, int maxev, int timeout)
 }
 int epoll_pwait(int ep, epoll_event* out, int maxev, int timeout, const sigset_t* ss)
 {
+  simint::TsanIgn _tsan_ign;
   SIM_REAL(int, epoll_pwait, int, epoll_event*, int, int, const sigset_t*);
   if (!isfd(ep)) return real(ep, out, maxev, timeout, ss);
   return epoll_wait(ep, out, maxev, timeout);
@@ -1049,6 +1058,7 @@ int epoll_pwait(int ep, epoll_event* out, int maxev, int timeout, const sigset_t
 
 int socket(int dom, int type, int proto)
 {
+  simint::TsanIgn _tsan_ign;
   SIM_REAL(int, socket, int, int, int);
   if (!on()) return real(dom, type, proto);
   int base = type & 0xf;
@@ -1064,6 +1074,7 @@ int socket(int dom, int type, int proto)
 }
 int bind(int fd, const sockaddr* a, socklen_t l)
 {
+  simint::TsanIgn _tsan_ign;
   SIM_REAL(int, bind, int, const sockaddr*, socklen_t);
   if (!isfd(fd)) return real(fd, a, l);
   point(0x901);
@@ -1089,6 +1100,7 @@ int bind(int fd, const sockaddr* a, socklen_t l)
 }
 int listen(int fd, int bl)
 {
+  simint::TsanIgn _tsan_ign;
   SIM_REAL(int, listen, int, int);
   if (!isfd(fd)) return real(fd, bl);
   point(0x902);
@@ -1101,6 +1113,7 @@ int listen(int fd, int bl)
 }
 int accept4(int fd, sockaddr* a, socklen_t* l, int flags)
 {
+  simint::TsanIgn _tsan_ign;
   SIM_REAL(int, accept4, int, sockaddr*, socklen_t*, int);
   if (!isfd(fd)) return real(fd, a, l, flags);
   point(0x903);
@@ -1139,12 +1152,14 @@ int accept4(int fd, sockaddr* a, socklen_t* l, int flags)
 }
 int accept(int fd, sockaddr* a, socklen_t* l)
 {
+  simint::TsanIgn _tsan_ign;
   SIM_REAL(int, accept, int, sockaddr*, socklen_t*);
   if (!isfd(fd)) return real(fd, a, l);
   return accept4(fd, a, l, 0);
 }
 int connect(int fd, const sockaddr* a, socklen_t l)
 {
+  simint::TsanIgn _tsan_ign;
   SIM_REAL(int, connect, int, const sockaddr*, socklen_t);
   if (!isfd(fd)) return real(fd, a, l);
   point(0x904);
@@ -1207,6 +1222,7 @@ int connect(int fd, const sockaddr* a, socklen_t l)
 }
 ssize_t send(int fd, const void* b, size_t n, int fl)
 {
+  simint::TsanIgn _tsan_ign;
   SIM_REAL(ssize_t, send, int, const void*, size_t, int);
   if (!isfd(fd)) return real(fd, b, n, fl);
   Fd* f = F(fd);
@@ -1217,6 +1233,7 @@ ssize_t send(int fd, const void* b, size_t n, int fl)
 }
 ssize_t sendto(int fd, const void* b, size_t n, int fl, const sockaddr* to, socklen_t tl)
 {
+  simint::TsanIgn _tsan_ign;
   SIM_REAL(ssize_t, sendto, int, const void*, size_t, int, const sockaddr*, socklen_t);
   if (!isfd(fd)) return real(fd, b, n, fl, to, tl);
   Fd* f = F(fd);
@@ -1231,6 +1248,7 @@ ssize_t sendto(int fd, const void* b, size_t n, int fl, const sockaddr* to, sock
 }
 ssize_t recv(int fd, void* b, size_t n, int fl)
 {
+  simint::TsanIgn _tsan_ign;
   SIM_REAL(ssize_t, recv, int, void*, size_t, int);
   if (!isfd(fd)) return real(fd, b, n, fl);
   Fd* f = F(fd);
@@ -1241,6 +1259,7 @@ ssize_t recv(int fd, void* b, size_t n, int fl)
 }
 ssize_t recvfrom(int fd, void* b, size_t n, int fl, sockaddr* from, socklen_t* l)
 {
+  simint::TsanIgn _tsan_ign;
   SIM_REAL(ssize_t, recvfrom, int, void*, size_t, int, sockaddr*, socklen_t*);
   if (!isfd(fd)) return real(fd, b, n, fl, from, l);
   Fd* f = F(fd);
@@ -1251,6 +1270,7 @@ ssize_t recvfrom(int fd, void* b, size_t n, int fl, sockaddr* from, socklen_t* l
 }
 ssize_t sendmsg(int fd, const msghdr* m, int fl)
 {
+  simint::TsanIgn _tsan_ign;
   SIM_REAL(ssize_t, sendmsg, int, const msghdr*, int);
   if (!isfd(fd)) return real(fd, m, fl);
   std::string buf;
@@ -1259,6 +1279,7 @@ ssize_t sendmsg(int fd, const msghdr* m, int fl)
 }
 ssize_t recvmsg(int fd, msghdr* m, int fl)
 {
+  simint::TsanIgn _tsan_ign;
   SIM_REAL(ssize_t, recvmsg, int, msghdr*, int);
   if (!isfd(fd)) return real(fd, m, fl);
   size_t total = 0;
@@ -1281,6 +1302,7 @@ ssize_t recvmsg(int fd, msghdr* m, int fl)
 }
 ssize_t read(int fd, void* b, size_t n)
 {
+  simint::TsanIgn _tsan_ign;
   SIM_REAL(ssize_t, read, int, void*, size_t);
   if (!isfd(fd)) return real(fd, b, n);
   Fd* f = F(fd);
@@ -1310,6 +1332,7 @@ ssize_t read(int fd, void* b, size_t n)
 }
 ssize_t write(int fd, const void* b, size_t n)
 {
+  simint::TsanIgn _tsan_ign;
   SIM_REAL(ssize_t, write, int, const void*, size_t);
   if (!isfd(fd))
   {
@@ -1340,6 +1363,7 @@ ssize_t write(int fd, const void* b, size_t n)
 }
 int close(int fd)
 {
+  simint::TsanIgn _tsan_ign;
   SIM_REAL(int, close, int);
   if (fd < FDBASE)
   {
@@ -1352,6 +1376,7 @@ int close(int fd)
 }
 int shutdown(int fd, int how)
 {
+  simint::TsanIgn _tsan_ign;
   SIM_REAL(int, shutdown, int, int);
   if (!isfd(fd)) return real(fd, how);
   point(0x90a);
@@ -1373,6 +1398,7 @@ int shutdown(int fd, int how)
 }
 int getsockopt(int fd, int lvl, int opt, void* v, socklen_t* l)
 {
+  simint::TsanIgn _tsan_ign;
   SIM_REAL(int, getsockopt, int, int, int, void*, socklen_t*);
   if (!isfd(fd)) return real(fd, lvl, opt, v, l);
   Fd* f = F(fd);
@@ -1391,6 +1417,7 @@ int getsockopt(int fd, int lvl, int opt, void* v, socklen_t* l)
 }
 int setsockopt(int fd, int lvl, int opt, const void* v, socklen_t l)
 {
+  simint::TsanIgn _tsan_ign;
   SIM_REAL(int, setsockopt, int, int, int, const void*, socklen_t);
   if (!isfd(fd)) return real(fd, lvl, opt, v, l);
   Fd* f = F(fd);
@@ -1410,6 +1437,7 @@ int setsockopt(int fd, int lvl, int opt, const void* v, socklen_t l)
 }
 int getsockname(int fd, sockaddr* a, socklen_t* l)
 {
+  simint::TsanIgn _tsan_ign;
   SIM_REAL(int, getsockname, int, sockaddr*, socklen_t*);
   if (!isfd(fd)) return real(fd, a, l);
   Fd* f = F(fd);
@@ -1420,6 +1448,7 @@ int getsockname(int fd, sockaddr* a, socklen_t* l)
 }
 int getpeername(int fd, sockaddr* a, socklen_t* l)
 {
+  simint::TsanIgn _tsan_ign;
   SIM_REAL(int, getpeername, int, sockaddr*, socklen_t*);
   if (!isfd(fd)) return real(fd, a, l);
   Fd* f = F(fd);
@@ -1432,6 +1461,7 @@ int getpeername(int fd, sockaddr* a, socklen_t* l)
 }
 int fcntl(int fd, int cmd, ...)
 {
+  simint::TsanIgn _tsan_ign;
   typedef int (*FcntlFn)(int, int, ...);
   static FcntlFn real = simint::real_fn<FcntlFn>("fcntl");
   va_list ap;
@@ -1451,6 +1481,7 @@ int fcntl(int fd, int cmd, ...)
 }
 int fcntl64(int fd, int cmd, ...)
 {
+  simint::TsanIgn _tsan_ign;
   typedef int (*FcntlFn)(int, int, ...);
   static FcntlFn real = simint::real_fn<FcntlFn>("fcntl64");
   va_list ap;
@@ -1462,6 +1493,7 @@ int fcntl64(int fd, int cmd, ...)
 }
 int ioctl(int fd, unsigned long req, ...)
 {
+  simint::TsanIgn _tsan_ign;
   typedef int (*IoctlFn)(int, unsigned long, ...);
   static IoctlFn real = simint::real_fn<IoctlFn>("ioctl");
   va_list ap;
@@ -1484,6 +1516,7 @@ int ioctl(int fd, unsigned long req, ...)
 }
 int poll(struct pollfd* p, nfds_t n, int timeout)
 {
+  simint::TsanIgn _tsan_ign;
   SIM_REAL(int, poll, struct pollfd*, nfds_t, int);
   bool anysim = false;
   for (nfds_t i = 0; i < n; i++) if (isfd(p[i].fd)) anysim = true;
@@ -1520,6 +1553,7 @@ int poll(struct pollfd* p, nfds_t n, int timeout)
 // ---------------------------------------------------------------- name resolution
 int getaddrinfo(const char* node, const char* service, const addrinfo* hints, addrinfo** res)
 {
+  simint::TsanIgn _tsan_ign;
   SIM_REAL(int, getaddrinfo, const char*, const char*, const addrinfo*, addrinfo**);
   if (!on()) return real(node, service, hints, res);
   point(0x940);
@@ -1559,6 +1593,7 @@ int getaddrinfo(const char* node, const char* service, const addrinfo* hints, ad
 }
 void freeaddrinfo(addrinfo* ai)
 {
+  simint::TsanIgn _tsan_ign;
   SIM_REAL(void, freeaddrinfo, addrinfo*);
   if (ai && (ai->ai_flags & 0xffff0000) == 0x51510000) { free(ai); return; }
   real(ai);
